@@ -109,6 +109,27 @@ def _width_task(task):
     return acc
 
 
+def _long_chains(acc):
+    """re-draw chains far beyond the depth of the exhaustive trees: k rejected answers, then an acceptable one"""
+    U = T.lib().util
+    for n in (1, 3, 5, 9, 17, 129, 257, 0x180, 65537):
+        k = max(1, (n.bit_length() + 7) // 8)
+        mask = (1 << n.bit_length()) - 1
+        rej = [v for v in (mask, n, (n + mask) // 2) if (v & mask) >= n]
+        if not rej:
+            continue
+        for chain in (4, 8, 15, 16, 17, 32, 64, 128, 255, 256, 300):
+            answers = [(rej[i % len(rej)]).to_bytes(k, "big") for i in range(chain)] + [((chain * 7) % n).to_bytes(k, "big")]
+            want, used = ref_sample(n, 2, answers)
+            sc = T.Script(answers, cap=1000)
+            got = T.observe(U.unbiased_randrange, 2, 2 + n, sc)
+            acc.n(states=1, transitions=1)
+            if got != ("ok", want) or sc.calls != [k] * used:
+                acc.violation("C11/randrange/long-redraw-chain", {"what": "after %d rejected draws the sampler does not return the next acceptable value (rejection sampling has no retry limit)" % chain,
+                              "replay": {"fn": "randrange", "start": 2, "stop": 2 + n, "answers": answers}, "expected": [want, [k] * used], "observed": [got, sc.calls]})
+        acc.seen((n, "long-chains"))
+
+
 def _wide_redraws(n, start, acc):
     """draws of 2+ bytes: the complete second level is 65536^2; explore a structured slice of it instead - a band of rejected
     first answers x a menu of second answers (x one third answer after two rejections)"""
@@ -157,13 +178,16 @@ def _shipped_task(task):
                    [enc((1 << 8 * k) - 1), enc(3)], [enc(1 << (q.bit_length() - 1))], [enc((1 << (q.bit_length() - 1)) - 1)],
                    [enc(top), enc(top - 1 if top - 1 >= q else q), enc(9)], [enc(q + (1 << q.bit_length())), enc(2)] if q + (1 << q.bit_length()) < (1 << 8 * k) else [enc(4)],
                    [enc(rnd.randrange(1 << 8 * k)) for _ in range(40)], [enc(rnd.randrange(1 << 8 * k)) for _ in range(40)]]
+        # long chains of rejected draws before an acceptable one (rejection sampling has no retry limit)
+        for chain in (3, 4, 7, 8, 15, 16, 17, 31, 32, 33, 63, 64, 100, 200):
+            streams.append([enc(top - (i % 7)) if top - (i % 7) >= q else enc(q) for i in range(chain)] + [enc(chain % q)])
     else:
         k = 64
         enc = lambda v: (v % (1 << 512)).to_bytes(64, "big")
         streams = [[enc(0)], [enc(1)], [enc(q - 1)], [enc(q)], [enc(q + 1)], [enc((1 << 512) - 1)], [enc(1 << 511)], [enc((1 << 252))], [enc((1 << 256) - 1)],
                    [enc(q * q + 5)], [b"\x00" * 63 + b"\x01"], [b"\x01" + b"\x00" * 63], [enc(rnd.randrange(1 << 512))], [enc(rnd.randrange(1 << 512))]]
     for st in streams:
-        sc = T.Script(list(st))
+        sc = T.Script(list(st), cap=1000)
         got = T.observe(g.random_scalar, sc)
         want, draws = ref_scalar(R, st)
         acc.n(states=1, transitions=1, traces=1)
@@ -173,7 +197,7 @@ def _shipped_task(task):
         acc.seen((name, draws))
         # through a session: the scalar reported by serialize() is the sampled one
         for side in ("A", "S"):
-            sc2 = T.Script(list(st))
+            sc2 = T.Script(list(st), cap=1000)
             s = inst.new(side, b"pw", None, entropy=sc2)
             m = T.observe(s.start)
             x = T.read_scalar(inst, s) if m[0] == "ok" else None
@@ -307,6 +331,7 @@ def run(tier, seed):
         return len(starts) * first * (128 * 256 if depth == 3 else 1) * (128 if depth >= 2 else 1) // 4000 + 1
     tasks.sort(key=lambda t: -cost(t))
     core.pmerge(_dispatch, tasks, acc)
+    _long_chains(acc)
     return acc
 
 
@@ -319,7 +344,7 @@ def replay(rec):
     L = T.lib()
     fn = r["fn"]
     if fn == "randrange":
-        sc = T.Script(list(r["answers"]))
+        sc = T.Script(list(r["answers"]), cap=1000)
         got = T.observe(L.util.unbiased_randrange, r["start"], r["stop"], sc)
         if isinstance(rec.get("expected"), list):
             return [got, sc.calls]
